@@ -116,12 +116,18 @@ def run_kani(src, BUILD, crate, harnesses, extra_flags, timeout, log_path, jobs=
     if jobs and len(harnesses) > 1:
         cmd += ['-j', str(jobs), '--output-format', 'terse']
     t0 = time.time()
+    import signal
     with open(log_path, 'w') as lf:
+        pr = subprocess.Popen(cmd, cwd=src, env=_env(), stdout=lf, stderr=subprocess.STDOUT, start_new_session=True)
         try:
-            p = subprocess.run(cmd, cwd=src, env=_env(), stdout=lf, stderr=subprocess.STDOUT, timeout=timeout)
-            rc = p.returncode
+            rc = pr.wait(timeout=timeout)
         except subprocess.TimeoutExpired:
             rc = None
+            try:
+                os.killpg(pr.pid, signal.SIGKILL)
+            except Exception:
+                pass
+            pr.wait()
     out = open(log_path, errors='replace').read()
     return dict(cmd='CARGO_NET_OFFLINE=true ' + ' '.join(cmd), rc=rc, out=out, wall_s=time.time() - t0)
 
@@ -141,11 +147,24 @@ def run_kani_unit(res, ku, src, tier, BUILD, VERIF):
     res.checker_cmds.append(r['cmd'])
     info['wall_s'] = round(r['wall_s'], 1)
     info['log'] = log
-    if r['rc'] is None:
+    optional = bool(ku.get('optional'))
+    if r['rc'] is None and not optional:
         info['status'] = 'undecided'
         res.undecided.append('unit %s: cargo kani timed out after %ds (bound not completed - not a pass)' % (ku['name'], timeout))
         return
     parsed = parse_output(r['out'])
+    if optional:
+        # best-effort deep bounds: a harness that did not finish within the cap is reported as NOT RUN, never as passed
+        done = [h for h in ku['harnesses'] if parsed.get(h) and parsed[h]['verdict']]
+        not_done = [h for h in ku['harnesses'] if h not in done]
+        info['bounds_not_completed'] = not_done
+        res.extra.setdefault('bounds_not_completed', []).extend(not_done)
+        ku = dict(ku)
+        ku['harnesses'] = done
+        info['harnesses'] = done
+        if not done:
+            info['status'] = 'not-run'
+            return
     if not parsed:
         info['status'] = 'undecided'
         tail = re.sub(r'\s+', ' ', r['out'][-600:])
